@@ -705,10 +705,11 @@ class Ncp:
     # ------------------------------------------------------------------ scans (default behaviour; C17 scripts its own)
     def h_startScan(self, req, scanType, channelMask, duration):
         chans = [c for c in range(11, 27) if int(channelMask) & (1 << c)]
+        step = getattr(self, "scan_step", 0.01)  # time per channel
         if int(scanType) == 0:  # energy scan
             for i, c in enumerate(chans):
-                self.callback("energyScanResultHandler", (c, -90 + (c * 7) % 30), 0.01 * (i + 1))
-        self.callback("scanCompleteHandler", (0, St("OK")), 0.01 * (len(chans) + 2))
+                self.callback("energyScanResultHandler", (c, -90 + (c * 7) % 30), step * (i + 1))
+        self.callback("scanCompleteHandler", (0, St("OK")), step * (len(chans) + 2))
         return (St("OK"),)
 
     # ------------------------------------------------------------------ scenario helper
